@@ -63,7 +63,9 @@ def gen(rng, tier, quarantine=()):
             done.append(pid)
         elif r < 0.65 and (live or done):
             ops.append({"op": "reenter", "id": rng.choice(live + done)})
-        elif r < 0.7 and live and "no-exit-hook" not in quarantine:
+        elif r < 0.7 and done:
+            ops.append({"op": "exit", "id": rng.choice(done), "again": True})
+        elif r < 0.75 and live and "no-exit-hook" not in quarantine:
             ops.append({"op": "exit_hook"})
             done += live
             live = []
